@@ -22,7 +22,7 @@ structure HState where
   table : Nat → Option Nat := fun _ => none        -- `Handler.streams`: sid ↦ handle
 
 inductive HOp
-  | open (sid : Nat)                       -- a stream with this sid is opened (by either side) and accepted
+  | open (sid : Nat)                       -- an open request for this sid (accepted iff the sid is free)
   | data (sid : Nat) (attr payload : Bytes)  -- the peer's data packet
   | closeSid (sid : Nat)                   -- the peer's `<close/>`
   | closeLocal (h : Nat)                   -- `Close` on that connection
@@ -31,6 +31,7 @@ inductive HOp
 
 inductive HObs
   | opened (h : Nat) | reply (r : Reply) | closed | read (o : ReadOut)
+  | refused        -- an open request for a session id that is in use: not-acceptable
   deriving DecidableEq, Repr
 
 def fresh : RState := ⟨true, 0, [], 0⟩
@@ -43,6 +44,9 @@ def unregister (s : HState) (sid : Nat) : HState :=
 
 def hstep (cd : Codec) (s : HState) : HOp → HState × HObs
   | .open sid =>
+    -- a session id that is in use cannot be opened a second time: the request is refused and the
+    -- stream that has the id is not touched (repaired code, round E)
+    if (s.table sid).isSome then (s, .refused) else
     ({ next := s.next + 1,
        conn := fun i => if i = s.next then fresh else s.conn i,
        sidOf := fun i => if i = s.next then sid else s.sidOf i,
